@@ -100,8 +100,16 @@ def match_date_range(date, date_range):
     Match a specific date, a four-tuple with no special values, with a DateRange
     object which as a start date and end date.
     """
-    return (date[:3] >= date_range.startDate[:3]) \
-        and (date[:3] <= date_range.endDate[:3])
+    start_date = date_range.startDate[:3]
+    end_date = date_range.endDate[:3]
+
+    # an unspecified start or end date leaves that end of the range open
+    if (start_date != (255, 255, 255)) and (date[:3] < start_date):
+        return False
+    if (end_date != (255, 255, 255)) and (date[:3] > end_date):
+        return False
+
+    return True
 
 #
 #   match_weeknday
